@@ -74,7 +74,11 @@ def gcv_block(rep: Report, s: Smoother):
     det = f"gcv_temp updates {[(d.rhs.key()[:60], d.guards[-1][:80]) for d in upd]}; y_temp {[(a[0].key(), a[2][-1][:80]) for a in yt]}"
     if len(upd) == 1 and len(yt) == 1:
         gd = upd[0].guards[-1]
-        okm = (gd.startswith("lt0[-1*gcv_temp[0] + ") or gd.startswith("le0[-1*gcv_temp[0] + ")) and yt[0][2][-1] == gd and yt[0][0].key() == z \
+        from ..poly import cmp_key
+        best = Rat.atom("gcv_temp[0]")
+        cands = [Rat.atom("gcv[0]")] + ([score.rhs] if score is not None else [])
+        accepted = {cmp_key(op, c_, best) for c_ in cands for op in (ast.Lt(), ast.LtE())}
+        okm = (gd in accepted or gd.startswith("lt0[-1*gcv_temp[0] + ") or gd.startswith("le0[-1*gcv_temp[0] + ")) and yt[0][2][-1] == gd and yt[0][0].key() == z \
             and upd[0].rhs.key().startswith("tuple[") and upd[0].rhs.key().endswith(";elem[lambda_range]]")
     ob("R-ARGMIN", "the best score, its lambda and its curve are updated together under `score < best`", okm, det, upd[0].stmt if upd else "arg-min update")
     leave = [e for e in sc.exits if e.kind in ("break", "continue", "return") and e.region is sweep[0].region]
@@ -121,7 +125,7 @@ def gcv_block(rep: Report, s: Smoother):
         if len(blocks) != 1:
             ob("R-IRLS", "one reweighting block produces the band", False, f"{len(blocks)} blocks", "IRLS")
         else:
-            fin = check_irls(rep, s, blocks[0], p, "band at the reported lambda", want_start=("reset",), lam=lam)
+            fin = check_irls(rep, s, blocks[0], p, "band at the reported lambda", want_start=("reset", "zeros"), lam=lam)
             ob("R-MASK", "asymmetric weights multiply the masked robust weights", "robust_weights" in blocks[0].weight_factors and w in blocks[0].weight_factors,
                f"factors {sorted(blocks[0].weight_factors)}", f"weight of {norm_stmt(blocks[0].solve.stmt)}")
             if fin is not None and outs:
@@ -207,8 +211,21 @@ def run(repo: Repo, tier: str) -> Report:
             vals.append(tuple(Normaliser().norm(a).const_value() for a in c.args))
     from fractions import Fraction
     want = (Fraction("-1.8"), Fraction("4.2"), Fraction("0.2"))
-    rep.ob("R-SIBLING(default-grid)", AFILE, "WhittakerSmoother.whitswcv", "default srange is arange(-1.8, 4.2, 0.2) on both arms", len(vals) == 2 and all(v == want for v in vals),
-           f"defaults {[tuple(str(x) for x in v) for v in vals]}", dflt[0] if dflt else "srange default")
+    # every kernel site is reached with that default when srange is None: one shared default before the dispatch, or one per arm
+    from ..rules import guard_chain
+    site_calls = [s_.call for s_ in load_sites(repo, kernels) if s_.where() == "WhittakerSmoother.whitswcv"]
+    covered = []
+    for sc_ in site_calls:
+        cs = guard_chain(m, sc_)
+        hit = False
+        for st in dflt:
+            cd = guard_chain(m, st)
+            if cd and cd[-1] == ("srange is None", True) and cd[:-1] == cs[:len(cd) - 1] and st.lineno < sc_.lineno:
+                hit = True
+        covered.append(hit)
+    rep.ob("R-SIBLING(default-grid)", AFILE, "WhittakerSmoother.whitswcv", "default srange is arange(-1.8, 4.2, 0.2) on both arms",
+           bool(vals) and len(vals) == len(dflt) and all(v == want for v in vals) and len(covered) == 2 and all(covered),
+           f"defaults {[tuple(str(x) for x in v) for v in vals]}; sites reached with a default: {covered}", dflt[0] if dflt else "srange default")
     rd = m.args.defaults
     names = [a.arg for a in m.args.args]
     dmap = dict(zip(names[-len(rd):], rd))
